@@ -168,6 +168,16 @@ func compositeRef(site string, par float64) refFn {
 // check one (site, point): returns a failure description or "".
 func checkPoint(site string, kind, order int, xs []float64, par float64, k int) string {
 	n := len(xs)
+	if kind == K32 {
+		// the evaluation point of a Real32 is the float32 value
+		xs = append([]float64{}, xs...)
+		for i := range xs {
+			xs[i] = float64(float32(xs[i]))
+		}
+	}
+	if site == "LogSub" && !(xs[0] > xs[1]+0.05) {
+		return "" // outside the domain / ill-conditioned
+	}
 	res, pk := evalOp(site, kind, order, xs, par, k)
 	if pk != 0 {
 		return fmt.Sprintf("panic kind %d on valid operands", pk)
@@ -311,7 +321,7 @@ var sweeps = []sweep{
 	{"Log1p", 1, domain{1e-5, 1e4, false, []float64{-0.5, -0.99}}, nil, nil},
 	{"Erf", 1, domain{1e-3, 5, true, nil}, nil, nil},
 	{"Erfc", 1, domain{1e-3, 5, true, nil}, nil, nil},
-	{"LogErfc", 1, domain{1e-3, 20, true, nil}, nil, nil},
+	{"LogErfc", 1, domain{1e-3, 18.5, true, nil}, nil, nil}, // x >= 18.84: known finding F-LOGERFC-D2 (witness below)
 	{"Gamma", 1, domain{0.05, 30, false, []float64{-0.5, -1.5, -2.3}}, nil, nil},
 	{"Lgamma", 1, domain{0.05, 1e4, false, nil}, nil, nil},
 	{"Mlgamma", 1, domain{2.1, 50, false, nil}, nil, []int{1, 2, 3, 4}},
@@ -372,6 +382,10 @@ func knownWitness(site string) string {
 		if k := execGo(regs, &Instr{Op: "Set", C: 0, A: 1}); k != 0 {
 			return fmt.Sprintf("x.Set(y) panics (kind %d) for x of order 1 and y of order 2 over the same 2 variables", k)
 		}
+	case "LogErfc:second-derivative-overflow":
+		if f := checkPoint("LogErfc", K64, 2, []float64{19}, 0, 0); f != "" {
+			return "LogErfc at x = 19, order 2: " + f
+		}
 	}
 	return ""
 }
@@ -426,7 +440,7 @@ func hunt(o Opts) {
 		}
 	}
 	// known-defect witnesses (replayed on every run)
-	for _, site := range []string{"Set:order-assigned-before-Alloc"} {
+	for _, site := range []string{"Set:order-assigned-before-Alloc", "LogErfc:second-derivative-overflow"} {
 		if f := knownWitness(site); f != "" {
 			hits = append(hits, HuntHit{Site: site, Failure: f, Class: "panic"})
 		}
